@@ -282,8 +282,14 @@ class C02(RunSpec):
         if idx % 10 == 6:
             # local searches that make no iteration at all (flat region), in both directions
             p.update({"fams": ["plateau", "constant", "plateau"], "leaf": _cycle(["local", "local_maxiter"], idx // 10), "levels": [2, 3], "maximize": bool((idx // 10) % 2)})
+        if idx % 10 == 1:
+            # objectives whose return type is not always a python float: an integer literal on one branch, integer counts, float32
+            # scalars (a batch evaluation must not size its buffer from the first value it sees)
+            p.update({"fam": _cycle(["intpen", "intval", "f32", "intpen"], idx // 10), "root": _cycle(["sea", "de", "shade", "ga", "mwea", "de_dither"], idx // 10), "stacks": bool((idx // 10) % 2)})
         if idx % 8 == 7:
             p = {"kind": "minimize", "fams": p["fams"], "dim": (2, 4)}
+            if idx % 16 == 15:
+                p["fams"] = ["intval", "intpen"]
         return p
 
     def make_case(self, seed, idx, tier):
@@ -327,6 +333,9 @@ class C02(RunSpec):
 
     def floors(self, tier):
         return [
+            ("C02.runs_on_an_objective_with_mixed_return_types", 3, "runs in which the objective returned values of more than one type"),
+            ("C02.objective_returned_a_value_of_type.int", 50, "objective values returned as python int"),
+            ("C02.objective_returned_a_value_of_type.float32", 50, "objective values returned as numpy float32"),
             ("C02.cached_problem_pairs", 3, "pairs of cached problems with different objectives in one process"),
             ("C02.local_deme_with_3_iterates", 1, "local deme with >=3 recorded iterates"),
             ("C02.generations_with_carried_and_new", 1, "generation with carried-over individuals"),
